@@ -264,7 +264,12 @@ def build_bytes_from_sse(event: ServerSentEvent, charset: str) -> bytes:
     """
     data: Iterable[bytes]
     if "data" in event:
-        data = (f"data: {_}".encode(charset) for _ in event.pop("data").splitlines())
+        # an event stream knows three line terminators (CRLF, CR, LF) and nothing
+        # else: str.splitlines() would also split at U+2028, U+0085, VT, FF, ...
+        data = (
+            f"data: {_}".encode(charset)
+            for _ in re.split(r"\r\n|\r|\n", event.pop("data"))
+        )
     else:
         data = ()
     return b"\n".join(
